@@ -117,6 +117,11 @@ func traceStrings(i *ids, log []entry) []string {
 
 func analyse(sc Scenario, out *outcome, drv *lib.Driver) *caseResult {
 	cr := &caseResult{sc: sc, out: out, hits: map[string]int{}}
+	if out.skipped {
+		cr.hits["skipped-after-hangs"]++
+		cr.key = "skipped"
+		return cr
+	}
 	id := &ids{m: map[string]int{}}
 	replay := func() any {
 		return map[string]any{"scenario": sc, "trace": traceStrings(id, out.log),
@@ -135,6 +140,9 @@ func analyse(sc Scenario, out *outcome, drv *lib.Driver) *caseResult {
 	}
 	if out.hang != "" {
 		viol("synchronizer-hangs", out.hang)
+	}
+	if out.persisted["persisted:stored-tampered"] > 0 {
+		viol("tampered-block-reported-as-persisted", "a block served with a changed committed field (hash kept) came back with Persisted <- nil: it passed verifierTask and Store")
 	}
 	final := out.chains[len(out.chains)-1]
 	for k, v := range out.hits {
@@ -301,6 +309,10 @@ func analyse(sc Scenario, out *outcome, drv *lib.Driver) *caseResult {
 	}
 	nst := 0
 	seenServed := map[string]bool{}
+	var accChain []int // hash ids of the acceptor's chain
+	for _, b := range pre {
+		accChain = append(accChain, id.of(b.Block.Hash))
+	}
 	for _, e := range out.log {
 		switch e.Kind {
 		case eServed:
@@ -318,11 +330,21 @@ func analyse(sc Scenario, out *outcome, drv *lib.Driver) *caseResult {
 		case eStored:
 			if e.Valid {
 				lines = append(lines, fmt.Sprintf("S %d %d", e.Num, id.of(&e.Hash)))
+			} else {
+				par := 0
+				if n := len(accChain); n > 0 {
+					par = accChain[n-1]
+				}
+				lines = append(lines, fmt.Sprintf("force-S %d %d %d", e.Num, id.of(&e.Hash), par))
 			}
+			accChain = append(accChain, id.of(&e.Hash))
 			nst++
 			notif(nst)
 		case eReverted:
 			lines = append(lines, fmt.Sprintf("R %d %d", e.Num, id.of(&e.Hash)))
+			if len(accChain) > 0 {
+				accChain = accChain[:len(accChain)-1]
+			}
 		}
 	}
 	for _, e := range out.log { // anything outside a store's window
@@ -480,6 +502,18 @@ func staticScenarios(seed uint64, dst []bool, maxLocal, maxNew int) []Scenario {
 	return out
 }
 
+// raceScenario: a reorg lands while an answer of the old chain is in flight. The node holds
+// A0..A2 and syncs A3 (switching to parallel fetchers); block 4 cannot be fetched while the source is
+// on chain A, block A5 is fetched but held back; the source then replaces A4.. by B4..; the node
+// stores B4 (it extends A3); then A5 arrives.
+func raceScenario(seed uint64, dstNew bool) Scenario {
+	five := uint64(5)
+	return Scenario{Kind: "race", Seed: seed, SrcNew: seed%2 == 0, DstNew: dstNew, Procs: 4, Prestore: 3, StartEpoch: 0,
+		Epochs:   []EpochSpec{{Add: 10}, {Depth: 6, Add: 6}},
+		Triggers: []Trigger{{AfterServed: &five}},
+		Faults: Faults{Rules: []Rule{{Height: 4, Epoch: 0, Action: "fail"}, {Height: 5, Epoch: 0, Action: "hold", UntilStores: 2}}}}
+}
+
 func dynamicScenario(r *lib.RNG, i int) Scenario {
 	sc := Scenario{Kind: "dynamic", Seed: r.Uint64() >> 1, SrcNew: r.Bool(), DstNew: r.Bool()}
 	n0 := r.Range(1, 12)
@@ -571,6 +605,11 @@ func main() {
 		procs := []int{1, 2, 4, 0}
 		for i := range scs {
 			scs[i].Procs = procs[i%len(procs)]
+		}
+		if os.Getenv("C06_RACE") != "" {
+			for i := 0; i < 6; i++ {
+				scs = append(scs, raceScenario(f.Seed*77+uint64(i), i%2 == 0))
+			}
 		}
 	}
 	// group by GOMAXPROCS (a process-wide setting)
